@@ -236,6 +236,22 @@ def run(ctx):
             # ---- model ----------------------------------------------------------------------------------
             if f in ('auto', 'auto_extended', 'conll', 'ptb', 'ja', 'deriv'):
                 cases.append(('tostring', f'tostring {f} {enc_scored}', 'ok ' + enc_str(out) if out is not None else err, desc))
+                if out is not None and f == 'deriv':
+                    # the whole output through the block reader (theorems block_doc_decode / main_deriv_reads_back): the
+                    # block of every record is the text of the real per-tree printer
+                    from depccg.printer.deriv import deriv_of
+                    try:
+                        dlang.set_global_language_to(lang)
+                        blocks_ = [deriv_of(T.clone(st.tree)) for sent in batch for st in sent]
+                    except Exception:
+                        blocks_ = None
+                    finally:
+                        dlang.set_global_language_to('en')
+                    if blocks_ is not None and all(b.endswith('\n') and '\n\n' not in b and not b.startswith('\n') for b in blocks_):
+                        want_bd = f'ok {len(flat)}' + ''.join(
+                            f' ## {n} {enc_str(f"{st.score:.8f}")} {enc_str(b)}'
+                            for (n, _), st, b in zip(flat, [st for sent in batch for st in sent], blocks_))
+                        cases.append(('block_doc', 'block_doc ' + enc_str(out + '\n'), want_bd, desc))
                 if out is not None and f in ('auto', 'auto_extended', 'ptb', 'ja'):
                     # the whole output through the document reader of the one-line formats (theorems line_doc_decode /
                     # main_line_reads_back): sentence number, score text and the tree's own line, taken from the real
